@@ -124,10 +124,28 @@ func (ex *Exec) appendSlice(fr *Frame, s RefV, t RefV, et types.Type) RefV {
 	}
 	var reall []src
 	nilC := s.IsNilTerm()
+	salts := s.Alts
 	if !nilC.IsFalse() {
-		reall = append(reall, src{c: nilC})
+		// a nil slice joins the array of a sibling alternative as an all-absent window, so that
+		// "not started yet" paths do not get an array of their own at every append site
+		hosted := false
+		for _, a := range s.Alts {
+			st := a.Tgt.(SliceT)
+			if st.phys()+tn <= st.Cap {
+				pres := make([]*Term, st.phys())
+				for j := range pres {
+					pres[j] = False
+				}
+				salts = append(append([]Alt(nil), s.Alts...), Alt{C: nilC, Tgt: SliceT{Arr: st.Arr, Off: st.Off, Cap: st.Cap, Len: BVC(0, 64), Pres: pres}})
+				hosted = true
+				break
+			}
+		}
+		if !hosted {
+			reall = append(reall, src{c: nilC})
+		}
 	}
-	for _, a := range s.Alts {
+	for _, a := range salts {
 		st := a.Tgt.(SliceT)
 		ph := st.phys()
 		if ph+tn <= st.Cap {
@@ -137,7 +155,14 @@ func (ex *Exec) appendSlice(fr *Frame, s RefV, t RefV, et types.Type) RefV {
 			copy(ne, arr.E)
 			g := And(fr.guard, a.C)
 			for j, c := range tcells {
-				ne[st.Off+ph+j] = MergeV(g, c.v, ne[st.Off+ph+j])
+				cell := st.Off + ph + j
+				if st.Arr.dirty[cell] {
+					ne[cell] = MergeV(g, c.v, ne[cell])
+				} else {
+					// a cell no window has used yet: absent on the other paths, content irrelevant
+					ne[cell] = c.v
+					st.Arr.markDirty(cell)
+				}
 			}
 			st.Arr.val = ArrayV{E: ne}
 			ns := st
@@ -191,7 +216,12 @@ func (ex *Exec) appendSlice(fr *Frame, s RefV, t RefV, et types.Type) RefV {
 			oldLen = Ite(r.c, r.st.Len, oldLen)
 			srcE := r.st.Arr.val.(ArrayV).E
 			for j := 0; j < r.st.phys(); j++ {
-				ne[j] = MergeV(r.c, srcE[r.st.Off+j], ne[j])
+				if !arr.dirty[j] {
+					ne[j] = srcE[r.st.Off+j] // fresh cell: content on other paths is irrelevant
+					arr.markDirty(j)
+				} else {
+					ne[j] = MergeV(r.c, srcE[r.st.Off+j], ne[j])
+				}
 				pres[j] = Ite(r.c, r.st.presAt(j), pres[j])
 			}
 		}
